@@ -38,6 +38,29 @@ CLAIMED = {
         "Trusted: as C04. The validity-check entry point (is_valid_expression) is covered by the correspondence of the AHB-level model once that layer is built (see DESIGN.md section 12).",
         "DESIGN.md section 5 C06",
     ),
+    "C01": (
+        "Coq proof (induction over derivations; stratified grammar vs ambiguity resolution by rule order) over a rule table regenerated from the loaded Lark grammar + exhaustive small-scope correspondence with Lark",
+        "Props/C01.v: every tree admitted by the modelled resolution (Rc: lowest rule order per span) is a derivation of the documented stratified precedence (Sc); such derivations are unique "
+        "modulo same-operator runs; every well-formed forest has one; the executable model parser computes it; redundant brackets and operator spelling do not change it. "
+        "Unbounded in length and nesting. Lark itself is tied by correspondence: all token sequences up to length 5/6 plus random expressions, tree compared modulo runs.",
+        "Trusted: Coq kernel; translator for the rule table (Gen_grammar); Rc as a model of Lark's Earley+resolve and Model/Lex.v as a model of its dynamic lexer (validated by correspondence, not verified). "
+        "White space is handled by the lexer model; its insensitivity to white space is established by correspondence and the metamorphic oracle, not yet by a theorem.",
+        "DESIGN.md section 5 C01",
+    ),
+    "C02": (
+        "Coq proof that the model parser returns a tree or SyntaxError and accepts exactly the forests derivable by the docstring grammar (= local well-formedness) + correspondence and outcome-class oracle on three input streams",
+        "Props/C02.v: parse_cond s is Ok or Exn SyntaxErr for every string; it accepts iff lexing and bracket matching succeed and the forest is locally well-formed; local well-formedness is equivalent to "
+        "derivability in the ambiguous grammar of the docstring. The AHB parser, the resolver and the validity check are covered by the outcome-class oracle on AHB-shaped strings (well-formed, nearly well-formed, garbage).",
+        "Trusted: as C01. Partial: the AHB-expression scanner / resolver are not yet inside the Coq model (oracle only); resource limits (recursion depth, memory) are outside the model.",
+        "DESIGN.md section 5 C02",
+    ),
+    "C08": (
+        "Coq proof by structural induction over the model of FormatConstraintTransformer and its error-message builder + correspondence on all small expressions x assignments x message modes",
+        "Props/C08.v: the fulfilled flag equals the Boolean value of the tree for every expression and assignment; absent/empty counts as fulfilled; under the proviso the result carries a message iff unfulfilled "
+        "(invariant preserved by the three builders); the base evaluator's default message. Grouping by precedence is C01.",
+        "Trusted: Coq kernel; the hand-written model of the transformer/f-string builders (validated by correspondence: messages compared as text).",
+        "DESIGN.md section 5 C08",
+    ),
 }
 
 PENDING_REASON = "not yet built in this round: the Coq model/theorems for this property are under construction (see DESIGN.md section 11); no check is claimed until it exists"
